@@ -725,7 +725,8 @@ def _log_mdlogs(ex, st, bound, node):
 
 
 def _cv_summary(ex, st, bound, node):
-    """calc_cv_vector by its result identity only (its value is C10's subject): pure."""
+    """calc_cv_vector by its result identity only (its value is C10's subject): pure.  The arguments are recorded (ghost)."""
+    st.ghost = dict(st.ghost, cv_calls=st.ghost.get("cv_calls", []) + [dict(bound)])
     yield st, CVTOK(bound["path"].term)
 
 
@@ -761,6 +762,16 @@ def _rm_post(ctx):
             pplen(ctx.st, o) == pplen(ctx.old, o),
             z3.Select(ctx.st.heap["Path.pp"], o.term) == z3.Select(ctx.old.heap["Path.pp"], o.term)))))
     out.append(("pre_existing_frames_untouched", unchanged_below(ctx, sys_fields(), ctx.old.alloc)))
+    # on ACC the weight vector of trial k is computed with the run's interfaces / moves / cap, the ensemble's own lambda_-1 and
+    # minus exactly for the [0-] ensemble
+    cvs = ctx.st.ghost.get("cv_calls", [])
+    keys = list(md["picked"].keys())
+    out.append(("one_weight_vector_per_trial_on_ACC_none_otherwise", z3.If(acc, z3.BoolVal(len(cvs) == len(trials)), z3.BoolVal(len(cvs) == 0)) if len(cvs) in (0, len(trials)) else z3.BoolVal(False)))
+    if len(cvs) == len(trials):
+        for k, t, c in zip(keys, trials, cvs):
+            out.append((f"ens{k}.weight_vector_computed_with_this_runs_settings", z3.BoolVal(
+                c["path"] is t and c["interfaces"] is md["interfaces"] and c["moves"] is md["mc_moves"] and c["cap"] is md["cap"]
+                and c["lambda_minus_one"] is md["picked"][k]["ens"]["tis_set"]["lambda_minus_one"] and c["minus"] is (k < 0))))
     return out
 
 
